@@ -41,10 +41,32 @@ def one(job):
     import random
     import logging
     logging.disable(logging.CRITICAL)
-    seed, ntls, nquic = job
+    seed, ntls, nquic = job[:3]
     rng = random.Random(seed)
+    mode = job[3] if len(job) > 3 else "plain"
     mx = e2e.Mixed(rng, [e2e.random_combo(rng) for _ in range(ntls)], n_quic=nquic, noise=False,
                    tls_app=[e2e.random_app(rng, 3, 6, big=0.0) for _ in range(ntls)])
+    if mode == "reuse" and mx.tls:
+        # a second connection on the same 4-tuple after the first one (client port reuse): appended packet by packet
+        import gen_tls
+        first = mx.tls[0]["conn"]
+        code, version, etm = e2e.random_combo(rng)
+        sc2 = gen_tls.Script(version, code, e2e.random_app(rng, 2, 4, big=0.0), rng, **dict(e2e.random_shape(rng, version), etm=etm))
+        conn2 = gen_tls.TcpConn(cip=first.cip, sip=first.sip, cport=first.cport, sport=first.sport, cmac=first.cmac,
+                                smac=first.smac, cisn=rng.randrange(1, 2 ** 31), sisn=rng.randrange(1, 2 ** 31))
+        for d, data in sc2.render()[0]:
+            conn2.send(d, data, rng, e2e.random_cut(rng))
+        t = mx.items[-1][1]
+        for _, f, *_ in conn2.pkts:
+            t += rng.randrange(1, 30_000)
+            mx.items.append(("pkt", t, f))
+            mx.owners.append(0)
+        mx.keylog += sc2.keylog_lines()
+    if mode == "clock":
+        # the capture clock steps back (NTP correction, merged captures): timestamps are not monotonic in file order
+        j = rng.randrange(1, len(mx.items))
+        back = rng.randrange(1, 5_000_000)
+        mx.items = [(k, (t - back if i >= j else t), f) for i, (k, t, f) in enumerate(mx.items)]
     kl = mx.keylog_text()
     full = tool.run(mx.capture(), kl)
     desc = mx.describe()
@@ -77,8 +99,9 @@ def one(job):
 
 def explore(ctx, scale=1):
     rng = ctx.rng
-    n = ctx.n(8, 200) * scale
-    jobs = [(rng.getrandbits(48), *([(1, 0), (0, 1), (2, 0), (1, 1)][i % 4])) for i in range(n)]
+    n = ctx.n(15, 300) * scale
+    jobs = [(rng.getrandbits(48), *([(1, 0), (0, 1), (2, 0), (1, 1)][i % 4]), ["plain", "clock", "reuse", "plain", "clock"][i % 5])
+            for i in range(n)]
     results = tool.pmap(one, jobs, procs=16 if ctx.thorough() else 8)
     o = ctx.oracle.setdefault("every-cut", {"runs": 0, "violations": 0})
     for job, res in zip(jobs, results):
@@ -88,6 +111,7 @@ def explore(ctx, scale=1):
         for k in range(inside):
             ctx.distinct.add(hash((job[0], k)).to_bytes(8, "big", signed=True))
         ctx.hist("kind", f"tls={job[1]} quic={job[2]}")
+        ctx.hist("mode", job[3])
         ctx.hist("packets", npk // 10 * 10)
         if fails:
             o["violations"] += 1
@@ -103,7 +127,7 @@ def explore(ctx, scale=1):
 
 def run(ctx):
     ctx.rule = ("captures with one or two connections (TLS of random version/suite with random segmentation, QUIC v1 with "
-                "random features); the tool is run on capture[:n] for EVERY n = 0..N and each result compared with the full "
+                "random features); variants: capture clock stepping back (timestamps not monotonic in file order), a second connection re-using the 4-tuple; the tool is run on capture[:n] for EVERY n = 0..N and each result compared with the full "
                 "run. An evaluation is one cut; a cut is non-trivial iff it leaves some flow with part, but not all, of "
                 "its exportable data (cut inside a handshake-complete connection, inside a multi-packet record, between "
                 "coalesced flights or after a key change).")
@@ -116,8 +140,7 @@ def run(ctx):
 def replay(ctx, obj):
     import random
     c = obj["case"]
-    seed, ntls, nquic = c["job"]
-    res = one((seed, ntls, nquic))
+    res = one(tuple(c["job"]))
     fails = res[0]
     for f in fails:
         print("REPLAY-FAIL cut", f[0], f[1])
